@@ -29,17 +29,23 @@ type Mutex struct {
 func (m *Mutex) Lock() {
 	sched.Point(sched.OpLock, sched.KMutex, &m.st, unsafe.Pointer(m))
 	m.mu.Lock()
+	sched.HideBegin()
 	m.st.A.Store(1)
+	sched.HideEnd()
 }
 
 func (m *Mutex) Unlock() {
+	sched.HideBegin()
 	m.st.A.Store(0)
+	sched.HideEnd()
 	m.mu.Unlock()
 }
 
 func (m *Mutex) TryLock() bool {
 	if m.mu.TryLock() {
+		sched.HideBegin()
 		m.st.A.Store(1)
+		sched.HideEnd()
 		return true
 	}
 	return false
@@ -53,22 +59,30 @@ type RWMutex struct {
 func (m *RWMutex) Lock() {
 	sched.Point(sched.OpLock, sched.KRW, &m.st, unsafe.Pointer(m))
 	m.mu.Lock()
+	sched.HideBegin()
 	m.st.A.Store(1)
+	sched.HideEnd()
 }
 
 func (m *RWMutex) Unlock() {
+	sched.HideBegin()
 	m.st.A.Store(0)
+	sched.HideEnd()
 	m.mu.Unlock()
 }
 
 func (m *RWMutex) RLock() {
 	sched.Point(sched.OpRLock, sched.KRW, &m.st, unsafe.Pointer(m))
 	m.mu.RLock()
+	sched.HideBegin()
 	m.st.B.Add(1)
+	sched.HideEnd()
 }
 
 func (m *RWMutex) RUnlock() {
+	sched.HideBegin()
 	m.st.B.Add(-1)
+	sched.HideEnd()
 	m.mu.RUnlock()
 }
 
@@ -87,16 +101,23 @@ type Once struct {
 }
 
 func (o *Once) Do(f func()) {
-	if o.done.Load() == 1 {
+	sched.HideBegin()
+	done := o.done.Load() == 1
+	sched.HideEnd()
+	if done {
 		o.once.Do(f) // fast path of the real Once (keeps its happens-before edge)
 		return
 	}
 	sched.Point(sched.OpOnce, sched.KOnce, &o.st, unsafe.Pointer(o))
 	o.once.Do(func() {
+		sched.HideBegin()
 		o.st.A.Store(1)
+		sched.HideEnd()
 		defer func() {
+			sched.HideBegin()
 			o.st.A.Store(0)
 			o.done.Store(1)
+			sched.HideEnd()
 		}()
 		f()
 	})
